@@ -235,7 +235,13 @@ fn run_seq(sc: &Scenario, sid: u64) -> SeqOutcome {
     let mut inconclusive: Option<String> = None;
     let mut aborted = false;
     let mut stopped = false; // all handles dropped, worker terminated and sink released (observed)
-    let ctx = |sc: &Scenario| jobj! {"capacity" => sc.capcode(), "ops" => sc.code(), "handler" => sc.handler};
+    // (built once per history: the call watchdog gets a copy at every call, and a history can have 10^5 operations)
+    let ctx_once: Json = {
+        let code = sc.code();
+        let code = if code.len() > 4000 { format!("{} ... ({} operations)", &code[..4000], sc.ops.len()) } else { code };
+        jobj! {"capacity" => sc.capcode(), "ops" => code, "handler" => sc.handler}
+    };
+    let ctx = |_sc: &Scenario| ctx_once.clone();
 
     macro_rules! alive {
         () => {
@@ -1092,7 +1098,7 @@ fn mode_panic_storm(r: &mut Runner) {
     // (limits like "give up after N restarts" sit at round numbers: 128, 256, 1024, 4096 are all crossed)
     let mut sizes = vec![(140usize, None, 1usize), (300, None, 20), (200, Some(512usize), 7), (135, Some(4), 1), (1100, None, 64), (1040, Some(64usize), 32)];
     if r.args.flag("big") {
-        sizes.extend([(4200, None, 128), (9000, Some(1024), 256), (70000, None, 1024)]);
+        sizes.extend([(4200, None, 128), (9000, Some(1024), 256), (20000, None, 1024)]);
     }
     for (n_panics, cap, batch) in sizes {
         let mut ops: Vec<SOp> = Vec::new();
